@@ -10,7 +10,10 @@ import (
 	"time"
 
 	ledger "github.com/formancehq/ledger/internal"
+	"github.com/formancehq/ledger/internal/bus"
+	"github.com/formancehq/ledger/internal/engine/command"
 	"github.com/formancehq/ledger/internal/machine"
+	"github.com/formancehq/ledger/internal/storage"
 	"github.com/formancehq/ledger/internal/machine/vm"
 	ng "github.com/formancehq/ledger/internal/verif/numgen"
 	vc "github.com/formancehq/ledger/internal/verif/vcommon"
@@ -243,7 +246,51 @@ func genC12(r *vc.Rand, i int) (c12case, *ng.World) {
 	return c12case{Index: i, Kind: "readfault", Script: c.Prog.String(), Vars: c.World.Vars, FaultAt: r.Range(1, 6)}, c.World
 }
 
+// cmdHarness: a real Commander (in-memory store of the repository, batcher + runner started) for the request-level part:
+// a panic must not escape Commander.CreateTransaction either.
+type cmdHarness struct {
+	cmd  *command.Commander
+	used int
+}
+
+func newCmdHarness() *cmdHarness {
+	st := storage.NewInMemoryStore()
+	c := command.New(st, command.NoOpLocker, command.NewCompiler(16), command.NewReferencer(), bus.NewNoOpMonitor())
+	_ = c.Init(context.Background())
+	go func() {
+		defer func() { _ = recover() }()
+		c.Run(context.Background())
+	}()
+	h := &cmdHarness{cmd: c}
+	for _, a := range []string{"alice", "bob", "users:001", "treasury"} {
+		_, _ = c.CreateTransaction(context.Background(), command.Parameters{}, ledger.TxToScriptData(ledger.TransactionData{
+			Postings: ledger.Postings{{Source: "world", Destination: a, Amount: big.NewInt(500), Asset: "USD"}, {Source: "world", Destination: a, Amount: big.NewInt(500), Asset: "EUR/2"}}}, false))
+	}
+	return h
+}
+
+func (h *cmdHarness) run(text string, vars map[string]string) (out realOutcome) {
+	defer func() {
+		if e := recover(); e != nil {
+			out.Class = "panic"
+			out.Err = fmt.Sprint(e)
+			out.Stack = stackNow()
+			out.PanicSig = "commander:" + panicSignature(e, out.Stack)
+		}
+	}()
+	h.used++
+	_, err := h.cmd.CreateTransaction(context.Background(), command.Parameters{}, ledger.RunScript{Script: ledger.Script{Plain: text, Vars: copyMap(vars)}})
+	if err != nil {
+		if machine.IsInsufficientFundError(err) {
+			return realOutcome{Class: ng.ClsInsufficient, Stage: "commander"}
+		}
+		return realOutcome{Class: ng.ClsRefused, Stage: "commander", Err: firstLine(err.Error())}
+	}
+	return realOutcome{Class: ng.ClsOK, Stage: "commander"}
+}
+
 func runC12(cfg *vc.Config, rep *vc.Report) {
+	harness := newCmdHarness()
 	// canaries: fixed programs whose outcome must never change during the life of the process
 	type canary struct {
 		text string
@@ -269,7 +316,7 @@ func runC12(cfg *vc.Config, rep *vc.Report) {
 	type result struct {
 		o realOutcome
 	}
-	cfg.Cases(30000, 3000000, func(i int, r *vc.Rand) {
+	cfg.Cases(200000, 3000000, func(i int, r *vc.Rand) {
 		cs, w := genC12(r, i)
 		if i%64 == 0 {
 			rep.Current(cs) // cheap: full logging only periodically; a fatal error is attributed by index range
@@ -295,6 +342,17 @@ func runC12(cfg *vc.Config, rep *vc.Report) {
 				rep.Violate("hang@"+cs.Kind, "no result after 20 s and again after 60 s in isolation", i, cs)
 				rep.Write(true)
 				os.Exit(0)
+			}
+		}
+		if i%8 == 0 { // the same input as a request to a real Commander
+			if harness.used > 300 {
+				harness = newCmdHarness()
+			}
+			co := harness.run(cs.Script, cs.Vars)
+			rep.Inc("commander_requests")
+			rep.Inc("commander_" + co.Class)
+			if co.Class == "panic" {
+				rep.Violate(co.PanicSig, co.Err+"\n"+trimStack(co.Stack), i, cs)
 			}
 		}
 		rep.Inc("outcome_" + o.Class)
